@@ -11,7 +11,7 @@ import extract
 from engine import Program
 from lib import Ctx
 
-EVID = os.path.join(VERIF, "evidence")
+EVID = os.environ.get("VERIF_EVIDENCE_DIR") or os.path.join(VERIF, "evidence")
 KNOWN = os.path.join(VERIF, "KNOWN_FINDINGS.jsonl")
 
 def load_known():
